@@ -223,6 +223,16 @@ theorem tyS_wf (lp : Bool) (ret : Option Ty) (g : TEnv) (e : Expr) (T : Ty) (h :
       · obtain ⟨t, _, h3⟩ := bind_ok h2
         cases h3; rfl
     all_goals cases h2
+  | post op e =>
+    cases op <;> simp only [tyS] at h
+    case collect =>
+      obtain ⟨ti, _, h2⟩ := bind_ok h
+      split at h2
+      · split at h2
+        · cases h2
+        · exact okw h2
+      all_goals cases h2
+    all_goals cases h
   | brk =>
     simp only [tyS] at h
     split at h
@@ -385,6 +395,14 @@ def PFo (f : Nat) : Prop := ∀ (lp : Bool) (ret : Option Ty) (S : STy) (g : TEn
   EnvOkG S env g → GWf g → RWf ret → StoreOk S σ → VT S (.fn [] (.tup [b, t])) itv → eqv b .bool = true → wf t = true →
   tyS true ret ((x, t) :: ("$con", .bool) :: g) body = .ok T →
   OutP lp ret S (fun S' v => VT S' .void v) (forGo f env x itv body σ)
+
+/-- one pull of an iterator of static type `() -> (bool, t)`: a value of `t`, or the end -/
+def PPull (f : Nat) : Prop := ∀ (lp : Bool) (ret : Option Ty) (S : STy) (it : Val) (t : Ty) (σ : St),
+  StoreOk S σ → VT S (.fn [] (.tup [.bool, t])) it → wf t = true →
+  OutP lp ret S (fun S' o => ∀ x, o = some x → VT S' t x) (pull f it σ)
+def PCol (f : Nat) : Prop := ∀ (lp : Bool) (ret : Option Ty) (S : STy) (it : Val) (acc : List Val) (t : Ty) (σ : St),
+  StoreOk S σ → VT S (.fn [] (.tup [.bool, t])) it → wf t = true → (∀ v ∈ acc, VT S t v) →
+  OutP lp ret S (fun S' vs => ∀ v ∈ vs, VT S' t v) (collectGo f it acc σ)
 
 /-- a value of a pair type is a pair of values of the component types -/
 theorem vt_pair {v : Val} {a b : Ty} (h : VT S (.tup [a, b]) v) : ∃ x y, v = .tup [x, y] ∧ VT S a x ∧ VT S b y := by
